@@ -94,6 +94,10 @@ class AbstractChunk(ABC):
         # Begin with a thorough inspection of the dataset
         data = utils.check_data_consistency(data, req_cols=self.DATA_COLS)
 
+        # The index labels of the user data carry no meaning for ampycloud, but rows get selected by
+        # label further down the line: make sure the labels are unique (e.g. after a pd.concat).
+        data = data.reset_index(drop=True)
+
         # By default we set this flag to false and overwrite if enough hits are present
         self._clouds_above_msa_buffer = False
 
